@@ -14,26 +14,26 @@ import (
 )
 
 const (
-	TypeA     = 1
-	TypeNS    = 2
-	TypeCNAME = 5
-	TypeSOA   = 6
-	TypePTR   = 12
-	TypeMX    = 15
-	TypeTXT   = 16
-	TypeAAAA  = 28
-	TypeLOC   = 29
-	TypeSRV   = 33
-	TypeCERT  = 37
-	TypeOPT   = 41
-	TypeDS    = 43
-	TypeRRSIG = 46
-	TypeNSEC  = 47
+	TypeA      = 1
+	TypeNS     = 2
+	TypeCNAME  = 5
+	TypeSOA    = 6
+	TypePTR    = 12
+	TypeMX     = 15
+	TypeTXT    = 16
+	TypeAAAA   = 28
+	TypeLOC    = 29
+	TypeSRV    = 33
+	TypeCERT   = 37
+	TypeOPT    = 41
+	TypeDS     = 43
+	TypeRRSIG  = 46
+	TypeNSEC   = 47
 	TypeDNSKEY = 48
-	TypeSVCB  = 64
-	TypeHTTPS = 65
-	TypeURI   = 256
-	TypeCAA   = 257
+	TypeSVCB   = 64
+	TypeHTTPS  = 65
+	TypeURI    = 256
+	TypeCAA    = 257
 )
 
 // TypeName is only for messages.
@@ -714,4 +714,148 @@ func NameProblems(n string) []string {
 		out = append(out, "name longer than 255 octets")
 	}
 	return out
+}
+
+// ---------------------------------------------------------------------------
+// NaiveCycle: would a decoder that follows every compression pointer which
+// points before the pointer's own position - and has no hop limit - walk some
+// name of b for ever? The message is walked section by section like any
+// decoder would; the answer is only used by the C12 engine to avoid
+// re-running inputs of a kind already reported in the same plan.
+
+// NaiveTrace is what the naive walk over all names of a message meets.
+type NaiveTrace struct {
+	Cycle     bool // some name walk revisits a pointer: endless without a hop limit
+	MaxHops   int  // most pointers followed within one name
+	IntoLabel int  // pointers whose target lies inside the content of a label walked before
+}
+
+type naiveWalker struct {
+	b       []byte
+	tr      NaiveTrace
+	content map[int]bool // offsets inside label contents met so far
+	starts  map[int]bool // offsets of label length octets / pointers met so far
+}
+
+func (w *naiveWalker) name(off, end int) (next int, ok bool) {
+	b := w.b
+	next = -1
+	visited := map[int]bool{}
+	hops := 0
+	for {
+		if off >= end || off >= len(b) {
+			return 0, false
+		}
+		c := int(b[off])
+		w.starts[off] = true
+		if c&0xC0 == 0xC0 {
+			if off+1 >= end || off+1 >= len(b) {
+				return 0, false
+			}
+			if visited[off] {
+				w.tr.Cycle = true
+				return 0, false
+			}
+			visited[off] = true
+			tgt := (c&0x3f)<<8 | int(b[off+1])
+			if next < 0 {
+				next = off + 2
+			}
+			if tgt >= off {
+				return 0, false
+			}
+			hops++
+			if hops > w.tr.MaxHops {
+				w.tr.MaxHops = hops
+			}
+			if w.content[tgt] && !w.starts[tgt] {
+				w.tr.IntoLabel++
+			}
+			off, end = tgt, len(b)
+			continue
+		}
+		if off+1+c > end || off+1+c > len(b) {
+			return 0, false
+		}
+		if c == 0 {
+			if next < 0 {
+				next = off + 1
+			}
+			return next, true
+		}
+		for i := off + 1; i < off+1+c; i++ {
+			w.content[i] = true
+		}
+		off += 1 + c
+	}
+}
+
+func naiveName(b []byte, off, end int) (next int, cyc, ok bool) {
+	w := &naiveWalker{b: b, content: map[int]bool{}, starts: map[int]bool{}}
+	next, ok = w.name(off, end)
+	return next, w.tr.Cycle, ok
+}
+
+// NaiveCycle reports whether the naive walk of b never ends.
+func NaiveCycle(b []byte) bool { return TraceNaive(b).Cycle }
+
+func TraceNaive(b []byte) NaiveTrace {
+	w := &naiveWalker{b: b, content: map[int]bool{}, starts: map[int]bool{}}
+	w.walk()
+	return w.tr
+}
+
+func (w *naiveWalker) walk() {
+	b := w.b
+	if len(b) < 12 {
+		return
+	}
+	cnt := func(i int) int { return int(b[i])<<8 | int(b[i+1]) }
+	off := 12
+	for i := 0; i < cnt(4); i++ {
+		next, ok := w.name(off, len(b))
+		if !ok || next+4 > len(b) {
+			return
+		}
+		off = next + 4
+	}
+	total := cnt(6) + cnt(8) + cnt(10)
+	for i := 0; i < total; i++ {
+		next, ok := w.name(off, len(b))
+		if !ok || next+10 > len(b) {
+			return
+		}
+		typ := int(b[next])<<8 | int(b[next+1])
+		rdlen := int(b[next+8])<<8 | int(b[next+9])
+		rd := next + 10
+		end := rd + rdlen
+		if end > len(b) {
+			return
+		}
+		var at []int
+		switch typ {
+		case TypeNS, TypeCNAME, TypePTR, TypeNSEC:
+			at = []int{0}
+		case TypeMX, TypeSVCB, TypeHTTPS:
+			at = []int{2}
+		case TypeSRV:
+			at = []int{6}
+		case TypeRRSIG:
+			at = []int{18}
+		case TypeSOA:
+			at = []int{0, -1}
+		}
+		p := rd
+		for _, a := range at {
+			if a >= 0 {
+				p = rd + a
+			}
+			n, ok := w.name(p, end)
+			if !ok {
+				return // the decoder gives up on this record: the message is rejected
+			}
+			p = n
+		}
+		off = end
+	}
 }
